@@ -39,6 +39,7 @@ def readFmt (fmt : String) (ls : List Str) : Option (Out RObj) :=
   | "mol2" => some (Mol2.read ls)
   | "pdb" => some (Pdb.read Iodata.Gen.Layouts.pdbL ls)
   | "cube" => some (Cube.read ls)
+  | "gromacs" => some (Gro.read ls)
   | "sdf" => some (Sdf.read T Iodata.Gen.Layouts.sdfL ls)
   | _ => none
 
